@@ -542,3 +542,151 @@ func sliceLowUser(v *ssa.BinOp) (*ssa.Slice, bool) {
 	}
 	return nil, false
 }
+
+// SINK(diff-result): what LineDiff computed is what its callers deliver.
+//   (a) a caller that returns a string returns the LineDiff result on every path; a constant ""
+//       is accepted only under equality of the two texts handed to LineDiff (any other shortcut
+//       answers "no difference" for texts that differ);
+//   (b) the result never becomes (part of) the *format* argument of a fmt printf-style call:
+//       a '%' on a diffed line would be interpreted and the printed hunk no longer applies.
+func ruleDIFFSINK(c *Ctx) {
+	const rule = "SINK(diff-result)"
+	n := 0
+	for _, rel := range []string{"util/dump", "cmd/textmapper", "gen", "compiler"} {
+		for _, f := range c.SrcFuncs(rel) {
+			var calls []*ssa.Call
+			for _, b := range f.Blocks {
+				for _, ins := range b.Instrs {
+					if call, ok := ins.(*ssa.Call); ok {
+						if g := call.Call.StaticCallee(); g != nil && g.Name() == "LineDiff" && g.Pkg != nil && strings.HasSuffix(g.Pkg.Pkg.Path(), "util/diff") {
+							calls = append(calls, call)
+						}
+					}
+				}
+			}
+			if len(calls) == 0 {
+				continue
+			}
+			ld := calls[0]
+			// (a)
+			res := f.Signature.Results()
+			if res.Len() == 1 && types.Identical(res.At(0).Type(), types.Typ[types.String]) {
+				n++
+				key := ssaFuncKey(f) + ":returns-diff"
+				bad := token.NoPos
+				for _, b := range f.Blocks {
+					ret, ok := b.Instrs[len(b.Instrs)-1].(*ssa.Return)
+					if !ok || len(ret.Results) != 1 {
+						continue
+					}
+					v := ret.Results[0]
+					if v == ssa.Value(ld) {
+						continue
+					}
+					if k, ok := v.(*ssa.Const); ok && k.Value != nil && k.Value.ExactString() == `""` {
+						eq := false
+						for _, g := range flattenConds(governing(b)) {
+							if bo, ok := g.V.(*ssa.BinOp); ok && bo.Op == token.EQL && g.Pol {
+								x, y := vpath(bo.X), vpath(bo.Y)
+								a0, a1 := vpath(ld.Call.Args[0]), vpath(ld.Call.Args[1])
+								if (x == a0 && y == a1) || (x == a1 && y == a0) {
+									eq = true
+								}
+							}
+						}
+						if eq {
+							continue
+						}
+					}
+					bad = ret.Pos()
+				}
+				if bad == token.NoPos {
+					c.Ok(rule, key, ld.Pos(), "every return is the LineDiff result (or \"\" under equality of the two texts)")
+				} else {
+					c.Bad(rule, key, bad, "%s returns something else than the LineDiff result of its two texts: the diff can be empty although the texts differ", f.Name())
+				}
+			}
+			// (b) taint into format arguments
+			tainted := map[ssa.Value]bool{ld: true}
+			for changed := true; changed; {
+				changed = false
+				for _, b := range f.Blocks {
+					for _, ins := range b.Instrs {
+						v, ok := ins.(ssa.Value)
+						if !ok || tainted[v] {
+							continue
+						}
+						switch x := ins.(type) {
+						case *ssa.BinOp:
+							if x.Op == token.ADD && (tainted[x.X] || tainted[x.Y]) {
+								tainted[v], changed = true, true
+							}
+						case *ssa.Phi:
+							for _, e := range x.Edges {
+								if tainted[e] {
+									tainted[v], changed = true, true
+								}
+							}
+						}
+					}
+				}
+			}
+			for _, b := range f.Blocks {
+				for _, ins := range b.Instrs {
+					call, ok := ins.(*ssa.Call)
+					if !ok {
+						continue
+					}
+					g := call.Call.StaticCallee()
+					if g == nil || g.Pkg == nil || g.Pkg.Pkg.Path() != "fmt" {
+						continue
+					}
+					fi := -1
+					switch g.Name() {
+					case "Printf", "Sprintf", "Errorf":
+						fi = 0
+					case "Fprintf":
+						fi = 1
+					}
+					if fi < 0 || fi >= len(call.Call.Args) {
+						continue
+					}
+					uses := false
+					for _, a := range call.Call.Args {
+						if tainted[a] {
+							uses = true
+						}
+						if sl, ok := a.(*ssa.Slice); ok { // variadic ...any
+							if al, ok := sl.X.(*ssa.Alloc); ok && al.Referrers() != nil {
+								for _, r := range *al.Referrers() {
+									if ia, ok := r.(*ssa.IndexAddr); ok && ia.Referrers() != nil {
+										for _, r2 := range *ia.Referrers() {
+											if st, ok := r2.(*ssa.Store); ok {
+												if mi, ok := st.Val.(*ssa.MakeInterface); ok && tainted[mi.X] {
+													uses = true
+												}
+											}
+										}
+									}
+								}
+							}
+						}
+					}
+					if !uses {
+						continue
+					}
+					n++
+					key := ssaFuncKey(f) + ":prints-diff"
+					if tainted[call.Call.Args[fi]] {
+						c.Bad(rule, key, call.Pos(), "the diff text is (part of) the format string of fmt.%s: '%%' on a diffed line is interpreted as a verb and the printed hunks no longer apply", g.Name())
+					} else {
+						c.Ok(rule, key, call.Pos(), "the diff text is printed as an operand of fmt.%s, not as its format", g.Name())
+					}
+				}
+			}
+		}
+	}
+	if n < 2 {
+		c.add(rule, "count:", token.NoPos, CountDropped, true, "only %d delivery sites of LineDiff results found (dump.Diff and generate --diff confirmed by hand)", n)
+	}
+}
